@@ -3,6 +3,7 @@ C19 - visitor extensions see a balanced, ordered walk whatever the main visitor 
   R19.1 typestate over the pruning exceptions in Visitor.walkabout: whatever visit() raises, depart() is reached in the same activation
   R19.2 Visitor.visit / Visitor.depart: pruning is delayed past the extensions; documented order of the four timings
   R19.3 scope-stack pairing in the AST builder
+  R19.4 Visitor.visit is only invoked by the walkers (which pair it with depart)
 Does not decide: third-party extensions raising pruning exceptions themselves; the skip-flag semantics of each pruning class.
 """
 from __future__ import annotations
@@ -199,6 +200,30 @@ def run(repo: Repo, chk: Check, thorough: bool = False) -> None:
            sv[:120] if sv == sd else f'visit resolves `{sv[:110]}` but depart resolves `{sd[:110]}`: a handler reached on entry has no counterpart on exit '
            '(or the reverse), so an extension is entered on nodes it never leaves', bd.loc)
     chk.require('R19.2', 14)
+
+    # ------------------------------------------------------------------ R19.4 who may call Visitor.visit
+    # Visitor.visit() makes the extensions enter a node; only walkabout() pairs it with depart().  Any other caller lets the extensions
+    # enter nodes they never leave (and, from inside a visit_* method of the main visitor, before their parents)
+    viscls = repo.cls('pydoctor.visitor.Visitor')
+    n_vc = 0
+    for f in sorted(repo.funcs.values(), key=lambda f: f.qn):
+        if f.cls is None or '.test' in f.mod.name or not repo.is_subclass(f.cls, viscls.qn):
+            continue
+        for c in calls_in(f, lambda c: call_name(c) == 'visit' and isinstance(c.func, ast.Attribute) and dotted(c.func.value) == 'self'):
+            n_vc += 1
+            okc = f.cls is viscls and f.name in ('walk', 'walkabout')
+            # a helper that is never called is dead code, not a violation
+            used = okc or any(call_name(x) == f.name and isinstance(x.func, ast.Attribute) and dotted(x.func.value) == 'self'
+                              for g in repo.funcs.values() if '.test' not in g.mod.name and g.cls is not None and
+                              (repo.is_subclass(g.cls, f.cls.qn) or repo.is_subclass(f.cls, g.cls.qn)) for x in calls_in(g))
+            chk.ob('R19.4', f'{f.qn} :: self.visit(...) only from the walkers', okc or not used,
+                   'called from walk()/walkabout(), which also depart' if okc else
+                   ('helper that nothing calls' if not used else
+                    f'`{norm(c)}` makes every extension enter the node although nothing will make them leave it: with the AST builder, the value of each '
+                    'expression statement (calls, docstrings) is entered by the extensions and never left'), repo.loc(f.mod, c))
+    if n_vc < 2:
+        raise AnalysisError(f'R19.4: {n_vc} self.visit(...) calls found in Visitor subclasses (walk, walkabout confirmed)')
+    chk.require('R19.4', 2)
 
     # ------------------------------------------------------------------ R19.3
     mv = repo.cls('pydoctor.astbuilder.ModuleVistor')
